@@ -139,6 +139,8 @@ Definition run_c03 (x : sx) : sx :=
                   else if has_seqres wlevel a then SY "Known_seqres_written_from_present_residues" else SY "none"
       | None => SY "none"
       end
+  | SL [SY "classify"; SL (SY "reread" :: SY "long-edge" :: _)] => SY "Known_cell_edge_outside_cryst1_columns"
+  | SL [SY "classify"; SL (SY "rewrite" :: SY "long-edge" :: _)] => SY "Known_cell_edge_outside_cryst1_columns"
   | SL [SY "classify"; SL (SY "reread" :: SY "seqres" :: _)] => SY "Known_seqres_written_from_present_residues"
   | SL [SY "classify"; SL (SY "rewrite" :: SY "seqres" :: _)] => SY "Known_seqres_written_from_present_residues"
   | SL (SY "classify" :: _) => SY "none"
